@@ -137,6 +137,11 @@ fixed("C08", "C08:non-paste-path-does-not-refill", "d1ecc9e",
        {"kind": "seq", "paste_threshold": None, "sigint_event": False,
         "script": [["write", B((b"a" * 1022 + "😀".encode() + b"xyz").hex())]] + [["req", 0]] * 5}])
 
+fixed("C08", "C08:none-early", "33b8f61",
+      "after two spurious wake-ups inside one request (trigger pipe written after its event was handed out) "
+      "send(timeout) returned None before the timeout - schedule dependent, found by the concurrent histories",
+      [json.load(open(os.path.join(os.path.dirname(os.path.abspath(__file__)), "known_witnesses", "C08-none-early.json")))])
+
 known("C03", "C03:prefix-then-undecodable-byte",
       "get_key raises UnicodeDecodeError for a table-sequence prefix (e.g. ESC) followed by a byte >= 0x80 "
       "that does not decode: ESC + any 8-bit byte under ascii, ESC + a UTF-8 lead/continuation byte under utf-8",
